@@ -8,18 +8,10 @@ from sa.core import AnalysisError, Repo, Report, call_name, kwarg, parent, unpar
 from sa.rules.common import calls_named, compose_operands, rtext, enclosing
 from sa.selftest import Edit, Variant
 
-EXPLANATION = (
-    "The geometric statement (same paint stack at every sample point) is not decidable statically. Decided necessary conditions: (R-SITE) "
-    "every affine composition site of the flattening code is normalised to an application list (first-applied first, operands resolved "
-    "through def-use to their provenance: own attribute of the element / accumulated context / use offset / viewport mapping) and compared "
-    "with the order SVG prescribes; compose_ltr's own semantics is C11; (R-ORDER) in _simplify every emitted piece passes "
-    "apply_transform(context.transform) unless the context transform is the identity, and apply_transform maps the command sequence through "
-    "Skia with that affine; (document order) replacements are inserted at idx+k, swapped-in elements keep their order, the fill piece "
-    "precedes the stroke piece; (viewport) _unnest_svg reads x/y/width/height/viewBox/preserveAspectRatio/overflow from the nested element, "
-    "falls back to the parent extent, maps viewBox->viewport in this argument order and passes the nested viewBox extent down; (traversal) a "
-    "child's CTM is built from its parent's context, use attributes are carried to the wrapper group."
-)
-ASSUMPTIONS = ["Skia transforms points correctly; shape->path geometry is C09; rendering equality is not decided"]
+from sa.texts import T as _T
+
+EXPLANATION = _T["C02"]["explanation"] + " Not decided: " + _T["C02"]["not_decided"] + "."
+ASSUMPTIONS = _T["C02"]["assumptions"]
 P = "C02"
 
 def run(repo: Repo, rep: Report):
